@@ -584,16 +584,20 @@ WRAPPERS = {
 }
 
 
-def c07_8(ctx, ss):
+def c07_8(ctx, ss, rule="C07.8", only=None):
+    """rule / only: C05.6 runs the clause for the Define table that parse() reads (shared clause)."""
     for m, acc in WRAPPERS.items():
+        if only is not None and m not in only:
+            continue
         ff, flow = fn(ss, DEC, f"DecFileParser.{m}")
         rets = returns(ff)
         k = ckey(ff, None, "wrapper")
         want = f"{acc}(self._parsed_dec_file)"
         if len(rets) == 1 and rets[0].value is not None and flow.text(rets[0].value) == want:
-            ctx.holds("C07.8", k, where(ff, rets[0]), f"{m}() = {want}", 1)
+            ctx.holds(rule, k, where(ff, rets[0]), f"{m}() = {want}", 1)
         else:
             got = [flow.text(r.value)[:100] for r in rets if r.value is not None]
-            ctx.violation("C07.8", k, where(ff, ff.node), f"{m}() returns {got}, not {want}")
-    ctx.count("functions", len(WRAPPERS))
-    ctx.floor("C07.8", "public wrappers", len(WRAPPERS), 12)
+            ctx.violation(rule, k, where(ff, ff.node), f"{m}() returns {got}, not {want}")
+    if only is None:
+        ctx.count("functions", len(WRAPPERS))
+        ctx.floor("C07.8", "public wrappers", len(WRAPPERS), 12)
